@@ -9,11 +9,15 @@ fn alphabet() -> Vec<Action> {
     for id in [1u32, 2] {
         for bind in [Bind::Reuse, Bind::A, Bind::B, Bind::C, Bind::D, Bind::E] {
             for null_first in [false, true] {
-                a.push(Action::Exec { id, bind, null_first, shim_ignores: false });
+                a.push(Action::Exec { id, bind, null_first, shim_ignores: 0 });
             }
         }
-        a.push(Action::Exec { id, bind: Bind::B, null_first: false, shim_ignores: true });
-        a.push(Action::Exec { id, bind: Bind::C, null_first: false, shim_ignores: true });
+        a.push(Action::Exec { id, bind: Bind::B, null_first: false, shim_ignores: 1 });
+        a.push(Action::Exec { id, bind: Bind::C, null_first: false, shim_ignores: 1 });
+        // a shim that stops after the first parameter (e.g. it answers with an error as soon as
+        // it sees a value it does not like)
+        a.push(Action::Exec { id, bind: Bind::D, null_first: false, shim_ignores: 2 });
+        a.push(Action::Exec { id, bind: Bind::Reuse, null_first: false, shim_ignores: 2 });
         a.push(Action::Prepare { id, n: 2, ok: true });
         // pending long data must not disturb what an execution binds or what later ones reuse
         a.push(Action::Long { id, param: 1, chunk: 1 });
@@ -40,7 +44,7 @@ pub fn build(quick: bool) -> Check {
     Check {
         id: "C16",
         level: "model_checking",
-        rule: format!("two prepared statements of 2 parameters; histories over {} actions: EXECUTE(id 1|2, reuse | bind LONG | TINY UNSIGNED | VAR_STRING | BIGINT UNSIGNED | LONG UNSIGNED (same type code, other signedness; values have the top bit set), first parameter NULL or not), executions whose parameters the shim does not look at, long data pending for the second parameter, re-PREPARE. Values are position- and step-dependent so that decoding with another statement's or an older type table, or from a shifted offset, gives a different value. Full tree to depth {} plus BFS over model states with two witnesses. Plus 4..300 statements each with its own table, all reused afterwards, and 4 statements under 160..3000 mixed executions. Oracle: types and values seen by the shim equal the model's (last table bound for that statement).", alpha.len(), if quick {4} else {6}),
+        rule: format!("two prepared statements of 2 parameters; histories over {} actions: EXECUTE(id 1|2, reuse | bind LONG | TINY UNSIGNED | VAR_STRING | BIGINT UNSIGNED | LONG UNSIGNED (same type code, other signedness; values have the top bit set), first parameter NULL or not), executions whose parameters the shim does not look at or of which it reads only the first, long data pending for the second parameter, re-PREPARE. Values are position- and step-dependent so that decoding with another statement's or an older type table, or from a shifted offset, gives a different value. Full tree to depth {} plus BFS over model states with two witnesses. Plus 4..300 statements each with its own table, all reused afterwards, and 4 statements under 160..3000 mixed executions. Oracle: types and values seen by the shim equal the model's (last table bound for that statement).", alpha.len(), if quick {4} else {6}),
         assumptions: vec!["reusing types when none were ever bound ends the history (protocol violation by the client)".into()],
         bounds: json!({"tree_depth": if quick {4} else {6}, "alphabet": alpha.len()}),
         exhaustive: true,
